@@ -144,7 +144,7 @@ class Spelling:
         if e.kind == "tl":
             a = "to='%s'" % (e.to or (READY_T if e.ready else PEND_T))
         elif e.kind == "rm":
-            a = "name='%s'" % (e.name or ("a" if e.ready else "b"))
+            a = "name='%s'" % (e.name if e.name is not None else ("a" if e.ready else "b"))
         else:
             a = "q='1'"
         parts = [self.tagname(e.kind), a]
